@@ -5,7 +5,7 @@ KNOWN_KEY = "tiebreak-joined-string"
 def classify(case_line):
     # the dedicated stream with names/namespaces that extend one another by '-' or '.', and the implementation
     # really emitted such a pair in the reverse of name order
-    tags = case_line.get("tags", [])
+    tags = case_line.get("tags") or []
     if any(t.startswith("stream:prefix-names") for t in tags) and "prefix-pair-out-of-name-order" in tags:
         return KNOWN_KEY
     return None
